@@ -3,6 +3,7 @@ import NixModel.Drive.Version
 import NixModel.Drive.State
 import NixModel.Drive.Index
 import NixModel.Drive.Units
+import NixModel.Drive.Region
 /-
   nixmodel: reads a trace (op lines with the implementation's recorded result after `=>`),
   replays each op on the Lean model, evaluates the property relations on the implementation's
@@ -18,6 +19,9 @@ def step (st : DState) (line : String) : DState × Option String :=
   | op :: args =>
     if op == "reset" then ({}, none) else
     match Version.handle op args impl with
+    | some o => (st, some o.render)
+    | none =>
+    match Region.handle op args impl with
     | some o => (st, some o.render)
     | none =>
     match Units.handle op args impl with
